@@ -70,7 +70,7 @@ LOT_WORDS = ['Lot ', 'Lots ', 'L', 'L.', 'Lt ', 'Lt. ', 'lot ', 'LOTS ', 'Lot']
 def run(ctx):
     rep = ctx.rep
     rng = Rng(ctx.seed, 5)
-    n = ctx.budget(700, 12000)
+    n = ctx.budget(700, 60000)
     items_cmp = []
     for i in range(n):
         r = rng.fork(i)
